@@ -98,7 +98,8 @@ namespace igris
         void *get()
         {
             void *ret = pool_alloc(&head);
-            _count--;
+            if (ret != nullptr)
+                _count--;
             return ret;
         }
 
